@@ -21,7 +21,7 @@ def r15_1(ctx):
     cfg = rv.cfg
     news = [(n, c) for (n, c) in q.calls(rv, '_new_value')]
     q.need(news, 'RawValue does not call _new_value')
-    obj = ast.unparse(news[0][0].ast.targets[0])
+    obj = ast.unparse(news[0][0].ast.targets[0]) if isinstance(news[0][0].ast, ast.Assign) else '<unnamed>'
     ms = [(n, c) for (n, c) in q.calls(rv, 'ctypes.memset')]
     ok = bool(ms) and all(_is_memset_whole(rv, c, obj) for (n, c) in ms)
     ctx.ob('R15.1', 'RawValue:zero-fills-sizeof(obj)', ok, rv, ms[0][1] if ms else None,
@@ -36,7 +36,8 @@ def r15_1(ctx):
         o2, w2 = cfg.must_pass([cfg.entry], [n for (n, c) in inits], [n for (n, c) in ms], completed=True)
         ctx.ob('R15.1', 'RawValue:allocate-zero-init-in-order', o1 and o2, rv, None, '_new_value < memset < __init__', path=w or w2)
     rets = [n for n in cfg.where(lambda n: isinstance(n.ast, ast.Return))]
-    ok = bool(rets) and all(ast.unparse(r.ast.value) == obj and cfg.dominated_by(r, [n for (n, c) in ms])[0] for r in rets)
+    ok = bool(rets) and bool(ms) and all(ast.unparse(r.ast.value) == obj and cfg.dominated_by(r, [n for (n, c) in ms])[0]
+                                         for r in rets)
     ctx.ob('R15.1', 'RawValue:returned-only-zeroed', ok, rv, None, 'every return is behind the memset')
     ra = m.func('sharedctypes:RawArray')
     cfg = ra.cfg
@@ -46,15 +47,17 @@ def r15_1(ctx):
     q.need(is_int and is_seq, 'RawArray does not distinguish size from initialiser')
     news = [(n, c) for (n, c) in q.calls(ra, '_new_value')]
     for (n, c) in news:
-        var = ast.unparse(n.ast.targets[0])
+        # the fresh object normally gets a name; when it is returned as it comes there is no name and no memset
+        var = ast.unparse(n.ast.targets[0]) if isinstance(n.ast, ast.Assign) else '<unnamed>'
         if q.has_guard(ra, n, 'isinstance(%s, int)' % P, True):
             ms = [(mn, mc) for (mn, mc) in q.calls(ra, 'ctypes.memset') if q.has_guard(ra, mn, 'isinstance(%s, int)' % P, True)]
             ok = bool(ms) and all(_is_memset_whole(ra, mc, var) for (mn, mc) in ms)
             ctx.ob('R15.1', 'RawArray(size):zero-fills-sizeof(obj)', ok, ra, ms[0][1] if ms else n,
                    'memset(addressof(obj), 0, sizeof(obj)) -- bytes, not elements')
             rets = [r for r in cfg.where(lambda r: isinstance(r.ast, ast.Return)) if q.has_guard(ra, r, 'isinstance(%s, int)' % P, True)]
-            ok = bool(rets) and all(ast.unparse(r.ast.value) == var and cfg.must_pass([n], [r], [mn for (mn, mc) in ms],
-                                                                                     skip_labels=('x',))[0] for r in rets)
+            ok = bool(rets) and bool(ms) and all(
+                ast.unparse(r.ast.value) == var and cfg.must_pass([n], [r], [mn for (mn, mc) in ms], skip_labels=('x',))[0]
+                for r in rets)
             ctx.ob('R15.1', 'RawArray(size):returned-only-zeroed', ok, ra, None, 'return behind the memset')
             tdefs = [v for (dn, t, v) in q.assigns(ra, 'type_') if q.has_guard(ra, dn, 'isinstance(%s, int)' % P, True)]
             ok = ([ast.unparse(v).replace(' ', '') for v in tdefs] == ['type_*%s' % P] and ast.unparse(c.args[0]) == 'type_') or \
@@ -290,7 +293,28 @@ def r15_5(ctx):
     ctx.ob('R15.5', 'Heap.__init__:records-the-owning-process', ok, init, None, 'self._lastpid = os.getpid()')
 
 
+
+def r15_8(ctx):
+    ctx.rule('R15.8', 'an array made from an initialiser gets its values through the type\'s own constructor '
+                      '(result.__init__(*items): every item converted to the element type) on every path -- no byte-wise '
+                      'shortcut that reinterprets items of another type', floor=1)
+    m = ctx.model
+    ra = m.func('sharedctypes:RawArray')
+    cfg = ra.cfg
+    P = ra.positional_params()[1]
+    news = [(n, c) for (n, c) in q.calls(ra, '_new_value') if q.has_guard(ra, n, 'isinstance(%s, int)' % P, False)]
+    q.need(news and isinstance(news[0][0].ast, ast.Assign), 'RawArray: initialiser branch not found')
+    var = ast.unparse(news[0][0].ast.targets[0])
+    inits = [n for (n, c) in q.calls(ra, var + '.__init__')
+             if len(c.args) == 1 and isinstance(c.args[0], ast.Starred) and ast.unparse(c.args[0].value) == P]
+    rets = [r for r in cfg.where(lambda r: isinstance(r.ast, ast.Return)) if q.has_guard(ra, r, 'isinstance(%s, int)' % P, False)]
+    ok, w = cfg.must_pass([news[0][0]], rets, inits, skip_labels=('x',)) if inits and rets else (False, None)
+    ctx.ob('R15.8', 'RawArray(initialiser):filled-by-the-constructor-on-every-path', ok, ra, inits[0] if inits else news[0][0],
+           '%s.__init__(*%s) between allocation and return' % (var, P), path=w)
+
+
 def run(ctx):
+    r15_8(ctx)
     r15_5(ctx)
     # "atomic" read-modify-write under get_lock() across processes needs a lock that a forked child does not
     # believe it already owns
@@ -312,6 +336,8 @@ def run(ctx):
 _S = 'billiard/sharedctypes.py'
 _H = 'billiard/heap.py'
 MUTANTS = [
+    ('initialiser-copied-bytewise', 'billiard/sharedctypes.py', "        result.__init__(*size_or_initializer)\n        return result\n",
+     "        if isinstance(size_or_initializer, (bytes, bytearray)):\n            ctypes.memmove(ctypes.addressof(result), bytes(size_or_initializer), len(size_or_initializer))\n        else:\n            result.__init__(*size_or_initializer)\n        return result\n", 'R15.8'),
     ('child-keeps-the-inherited-free-lists', _H, "            self.__init__()                     # reinitialize after fork\n",
      "            self._lastpid = os.getpid()\n            self._lock = threading.Lock()\n            self._allocated_blocks = set()\n", 'R15.5'),
     ('after-fork-hook-only-for-named-semaphores', 'billiard/synchronize.py',
